@@ -7,3 +7,9 @@ pub assume_specification<'a> [<String as PartialEq<&'a str>>::ne] (a: &String, b
     ensures r == (a@ != b@);
 pub assume_specification<'a> [<String as PartialEq<&'a str>>::eq] (a: &String, b: &&str) -> (r: bool)
     ensures r == (a@ == b@);
+// `&String == &String` goes through vstd's PartialEqSpec; String's eq is character-sequence equality (trusted).
+#[verifier::external_body]
+pub broadcast proof fn axiom_string_obeys_eq_spec() ensures #[trigger] <String as vstd::std_specs::cmp::PartialEqSpec>::obeys_eq_spec() {}
+#[verifier::external_body]
+pub broadcast proof fn axiom_string_eq_spec(a: String, b: String)
+    ensures #[trigger] vstd::std_specs::cmp::PartialEqSpec::eq_spec(&a, &b) == (a@ == b@) {}
